@@ -14,7 +14,7 @@ SPEC = dict(
         "outside the two early exits (the text `read_parquet` anywhere; the header-only single-table fast path). The proof goes "
         "through the four regex passes in the order of the source (pass lemma + per-site lemmas H1-H4). The full statement is "
         "FALSE of the current source: one kernel-evaluated witness per excluded class (C16_comma_join_/distinct_from_/cte_shadow_/"
-        "cte_quoted_/rp_text_/fastpath_partial_/fastpath_cr_/tablefunc_fast_/with_newline_/lateral_newline_/comment_last_byte_witness). "
+        "cte_quoted_/rp_text_/fastpath_partial_/fastpath_cr_/tablefunc_fast_/lateral_newline_/comment_last_byte_witness; the former with-newline class is fixed in /repo (04fa395) and kept as C16_with_newline_fixed). "
         "C16_cache_key (FULL, true since the fix /repo 12df811 `cacheKey := headerDB + NUL + sql`): the transform-cache key determines "
         "(header, sql) for ALL pairs of requests the gate accepts - any SQL text, header absent or matching validIdentifierPattern "
         "(hdrOK_noNul: such a header has no NUL; C16_cache_key_needs_header_gate shows the gate hypothesis is needed); the pre-fix "
